@@ -335,6 +335,16 @@ func runSendCase(c *Case, o *vlib.Oracle, v *verdict) {
 		return
 	}
 
+	if c.W.Minsig && c.Rfc {
+		// main.go refuses this combination since fix 513217bb (before: endless re-signing loop in sign_tx)
+		v.kind = "send-refused"
+		v.hit("minsig+rfc6979 refused")
+		if res.Exit != 1 || len(res.NewFiles) > 0 {
+			v.pf("minsig-rfc6979", "minsig with -rfc6979 must be refused (exit 1, nothing written); got exit %d, files %v", res.Exit, sortedKeys(res.NewFiles))
+		}
+		return
+	}
+
 	// ---- what was written
 	var txFileName string
 	var txFile []byte
@@ -648,6 +658,33 @@ func runSendCase(c *Case, o *vlib.Oracle, v *verdict) {
 			}
 		}
 	}
+	// balance/unspent.txt afterwards (observe_at): spent lines gone, the others kept in order, own new outputs appended
+	if c.Apply && inputsOK {
+		var wantB []string
+		for _, u := range c.Unspent {
+			if !seen[fmt.Sprintf("%s-%d", u.Txid, u.Vout)] {
+				wantB = append(wantB, fmt.Sprintf("%s-%d", u.Txid, u.Vout))
+			}
+		}
+		for i, o := range tx.TxOut {
+			if ownedBy(pubs, bech, o.Pk_script) {
+				wantB = append(wantB, fmt.Sprintf("%s-%d", tx.Hash.String(), i))
+			}
+		}
+		var gotB []string
+		after, _ := os.ReadFile(filepath.Join(dir, "balance", "unspent.txt"))
+		for _, l := range strings.Split(string(after), "\n") {
+			if f := strings.Fields(l); len(f) > 0 {
+				i := strings.LastIndex(f[0], "-")
+				var n int
+				fmt.Sscanf(f[0][i+1:], "%d", &n)
+				gotB = append(gotB, fmt.Sprintf("%s-%d", f[0][:i], n))
+			}
+		}
+		if strings.Join(gotB, " ") != strings.Join(wantB, " ") {
+			v.pf("balance-after-prop", "balance/unspent.txt after the run lists %v, expected (unspent minus inputs plus own new outputs) %v", gotB, wantB)
+		}
+	}
 	v.key = fmt.Sprintf("%d in %d out %s", len(tx.TxIn), len(tx.TxOut), hx(tx.Hash.Hash[:8]))
 }
 
@@ -735,6 +772,13 @@ func runRawCase(c *Case, o *vlib.Oracle, v *verdict) {
 	res := runWallet(dir, args)
 	if res.TimedOut {
 		v.pf("wallet-hang", "the wallet did not terminate within 20 s")
+		return
+	}
+	if c.W.Minsig && c.Rfc {
+		v.hit("minsig+rfc6979 refused")
+		if res.Exit != 1 || len(res.NewFiles) > 0 {
+			v.pf("minsig-rfc6979", "minsig with -rfc6979 must be refused (exit 1, nothing written); got exit %d, files %v", res.Exit, sortedKeys(res.NewFiles))
+		}
 		return
 	}
 	// spent outputs as the balance folder gives them
@@ -916,7 +960,8 @@ func main() {
 		r.Finish("-", "wallet binary could not be built")
 	}
 	r.Assume = []string{
-		"signature validity is observed on the real output by script.VerifyTxScript (real interpreter); in Lean it is the theorem signatures_verify under the named hypotheses sign_verify (C03) and digest-depends-on-skeleton-only (C02)",
+		"signature validity is observed on the real output by script.VerifyTxScript (real interpreter); in Lean it is the theorem signatures_verify under the NAMED hypotheses sign_verify_ecdsa / sign_verify_schnorr (C03's statement), digests are functions of the transaction skeleton and spent outputs only (C02's statement, built into Spec.Crypto), der_len / schnorr_len, hash_same / hash_len, no_cross (no HASH160 collision between a key hash and another key's P2SH redeem hash / 20 zero bytes), haddr (bech32 encoding of the spent program succeeds), hss (native witness inputs arrive with empty scriptSig)",
+		"Spec/WalletTx.lean (verification specialised to P2PKH / P2WPKH / P2SH-P2WPKH / P2TR key path) is a reading of BIP16/141/143/341, not executed against the interpreter",
 		"wallet keys are taken from the real wallet's own listing (-l -atype pks); key derivation is C14's subject",
 		"amounts and sums < 2^64 (beyond: StringToSatoshis / spendBtc wrap silently — DESIGN O4, observation only)",
 		".others raw-key files, litecoin mode, uncompressed keys, -prompt, scrypt and BIP39 password entry are not exercised",
@@ -943,10 +988,21 @@ func main() {
 		r.Finish("replay of one recorded case", "replay")
 	}
 
+	if dn := os.Getenv("C13_DUMPCASE"); dn != "" { // debugging aid: print one corpus case as a replay document
+		for _, c := range corpus() {
+			if c.Name == dn {
+				b, _ := json.MarshalIndent(map[string]interface{}{"replay": c}, "", " ")
+				fmt.Println(string(b))
+			}
+		}
+		os.RemoveAll(tmp)
+		os.Exit(0)
+	}
+
 	amountTie()
 
 	cases := corpus()
-	n := r.N(150, 3000)
+	n := r.N(500, 10000)
 	g := r.Rng
 	for i := 0; i < n; i++ {
 		cg := g.Fork()
